@@ -276,13 +276,21 @@ int websocket_compress(const struct websocket *s, uint8_t *dest, uint8_t *src, s
 		memcpy(dest, src, length);
 		return length;
 	}
+	if (length == 0) {
+		/*
+		 * RFC 7692, 7.2.3.6: an empty message is an empty stored block without
+		 * its flush marker. deflate() makes no progress without input.
+		 */
+		dest[0] = 0x00;
+		return 1;
+	}
 	int ret;
 	z_stream *strm = *(s->extension_compression.strm_comp);
 	unsigned int have;
 
 	strm->avail_in = length;
 	strm->next_in = src;
-	strm->avail_out = length * 2;
+	strm->avail_out = WEBSOCKET_COMPRESS_BUFFER_SIZE(length);
 	strm->next_out = dest;
 	if (s->extension_compression.server_no_context_takeover) {
 		ret = deflate(strm, Z_FULL_FLUSH);
@@ -295,8 +303,11 @@ int websocket_compress(const struct websocket *s, uint8_t *dest, uint8_t *src, s
 		deflateEnd(strm);
 		return -1;
 	}
-	have = length * 2 - strm->avail_out;
-	if (have < 4) log_err("Deflate not enough space!");
+	have = WEBSOCKET_COMPRESS_BUFFER_SIZE(length) - strm->avail_out;
+	if ((have < 4) || (strm->avail_out == 0)) {
+		log_err("Deflate not enough space!");
+		return -1;
+	}
 
 	if (dest[have - 1] != 0xff) log_err("Error remove tail deflate!");
 	if (dest[have - 2] != 0xff) log_err("Error remove tail deflate!");
